@@ -302,10 +302,143 @@ def layer_at(stack, objs, items, ref):
     return layer
 
 
+class _SelfDeadlock(Exception):
+    pass
+
+
+class _CheckedLock(object):
+    """a lock like threading.Lock that says so when the thread that holds it asks for it again (with the real lock: forever)"""
+
+    def __init__(self):
+        import threading
+        self._l = threading.Lock()
+        self._owner = None
+
+    def acquire(self, blocking=True, timeout=-1):
+        import threading
+        if self._owner == threading.get_ident() and blocking and timeout == -1:
+            raise _SelfDeadlock("the thread that holds this lock waits for it")
+        r = self._l.acquire(blocking, timeout)
+        if r:
+            self._owner = threading.get_ident()
+        return r
+
+    def release(self):
+        self._owner = None
+        self._l.release()
+
+    def locked(self):
+        return self._l.locked()
+
+    def __enter__(self):
+        self.acquire()
+        return self
+
+    def __exit__(self, *a):
+        self.release()
+
+
+def _responder(case, out):
+    """a layer that answers from inside receive() - the acknowledgement / pong pattern every protocol layer uses: the item goes on
+    upward, the answer goes down through the layers below, in order, and the stack's receive() returns"""
+    import threading
+    import types
+    import yowsup.layers as layers_mod
+    seen = []
+
+    def mk(name, respond=False, forward=True):
+        def send(self, data):
+            seen.append(("down", name, data))
+            self.toLower(data)
+
+        def receive(self, data):
+            seen.append(("up", name, data))
+            if respond and not str(data).startswith("answer"):
+                for k in range(case.get("answers", 1)):
+                    self.toLower("answer%d-to-%s" % (k, data))
+            if forward:
+                self.toUpper(data)
+        return type(name, (YowLayer,), {"send": send, "receive": receive})
+
+    class Bottom(YowLayer):
+        def send(self, data):
+            seen.append(("wire", "bottom", data))
+
+        def receive(self, data):
+            self.toUpper(data)
+
+    class Top(YowLayer):
+        def receive(self, data):
+            seen.append(("app", "top", data))
+            if case["where"] == "top":
+                self.toLower("answer0-to-%s" % data)
+
+        def send(self, data):
+            self.toLower(data)
+    n_below, n_above = case.get("below", 1), case.get("above", 1)
+    below = [mk("B%d" % i) for i in range(n_below)]
+    above = [mk("A%d" % i) for i in range(n_above)]
+    where = case["where"]
+    out.label("responder=" + where, "build=" + case["build"])
+    out.info = {"nt": True}
+    shim = types.SimpleNamespace(**{k: getattr(threading, k) for k in dir(threading) if not k.startswith("__")})
+    shim.Lock = _CheckedLock
+    real = layers_mod.threading
+    layers_mod.threading = shim
+    try:
+        mid = [] if where == "top" else [mk("R", respond=True)] if where == "middle" else \
+            [YowParallelLayer((mk("R", respond=True), mk("S", forward=False)))] if where == "group_member" else [mk("R", respond=True), mk("R2", respond=True)]
+        order = [Bottom] + below + mid + above + [Top]
+        try:
+            if case["build"] == "builder":
+                b = YowStackBuilder()
+                for c in order:
+                    b.push(c)
+                stack = b.build()
+            elif case["build"] == "tuple_top_first":
+                stack = YowStack(tuple(reversed(order)))
+            else:
+                stack = YowStack(tuple(order), reversed=False)
+        except Exception as e:
+            out.fail("assembly", "responder:assembly_raises:%s" % type(e).__name__, {"error": repr(e)[:300]})
+            return out
+        for item in ["item%d" % i for i in range(case.get("items", 1))]:
+            del seen[:]
+            try:
+                stack.receive(item)
+            except _SelfDeadlock:
+                out.fail("flow", "responder:%s:answer_from_inside_receive_waits_for_a_lock_its_own_thread_holds" % where,
+                         {"seen": [list(map(str, x)) for x in seen][:12]})
+                return out
+            except Exception as e:
+                out.fail("flow", "responder:%s:raises:%s" % (where, type(e).__name__), {"error": repr(e)[:300]})
+                return out
+            if [x for x in seen if x[0] == "app"] != [("app", "top", item)]:
+                out.fail("flow", "responder:%s:item_not_delivered_once_to_the_top" % where, {"seen": [list(map(str, x)) for x in seen][:12]})
+                return out
+            n_resp = {"top": 1, "middle": 1, "group_member": 1, "two": 2}[where] * (1 if where == "top" else case.get("answers", 1))
+            wire = [x[2] for x in seen if x[0] == "wire"]
+            if len(wire) != n_resp or any(not str(w).startswith("answer") or not str(w).endswith(item) for w in wire):
+                out.fail("flow", "responder:%s:answers_on_the_wire" % where, {"expected": n_resp, "wire": [str(w) for w in wire][:6]})
+                return out
+            # every answer passed the layers below the responder, top-down
+            for w in set(wire):
+                path = [x[1] for x in seen if x[0] == "down" and x[2] == w and x[1].startswith("B")]
+                want = ["B%d" % i for i in reversed(range(n_below))]
+                if path[:len(want)] != want and path != want * (len(path) // max(1, len(want))):
+                    out.fail("flow", "responder:%s:answer_skipped_or_reordered_layers_below" % where, {"path": path, "expected": want})
+                    return out
+    finally:
+        layers_mod.threading = real
+    return out
+
+
 def run_case(case):
     out = Outcome()
     if case["sub"] == "helpers":
         return _helpers(case, out)
+    if case["sub"] == "responder":
+        return _responder(case, out)
     items = case["items"]
     positions = model_positions(items)
     classes = make_classes(items)
@@ -813,7 +946,10 @@ def plan(tier):
     quick = tier == "quick"
     return {
         "shards": 16,
-        "enumerations": [("default_helpers", _enum_helpers)],
+        "enumerations": [("default_helpers", _enum_helpers),
+                         ("responder_layers", lambda: iter([{"sub": "responder", "where": w, "build": b, "below": nb, "above": na, "answers": k, "items": 2}
+                                                            for w in ("top", "middle", "group_member", "two") for b in ("builder", "tuple_top_first", "bottom_first")
+                                                            for nb in (0, 1, 3) for na in (0, 2) for k in (1, 2)]))],
         "exhaustive": ["default_helpers"],
         "strategies": [("shapes", shape_strategy(), 250 if quick else 10000)],
         "shrink": "hypothesis",
@@ -822,3 +958,4 @@ def plan(tier):
 
 RULE += (" Also: a send that one layer refuses (raises), after which no layer's send lock may still be held; an earlier stack assembled from the same layer classes.")
 RULE += (" The default helpers are called with keywords and with positional arguments in their documented order (call=positional).")
+RULE += (" Also stacks with a layer (middle layer, top layer, member of a parallel group, two layers) that answers downward from inside receive(); the layers' locks are replaced by locks that report a thread waiting for a lock it holds itself.")
